@@ -40,6 +40,8 @@ type Path struct {
 	image     *Term
 	imgWrites int
 	imgLog    []*Term // address of every byte stored into the image, in order
+	imgUniq   []*Term // distinct address terms
+	imgSeen   map[*Term]bool
 	steps     int
 	nondets   map[string]*Term
 	nondetOrd []string
@@ -438,6 +440,7 @@ func (in *Interp) RunHarness(fn *ssa.Function, deadline time.Time) {
 		p := &Path{pcSet: map[*Term]bool{}, dec: prefix, nondets: map[string]*Term{}, ghost: map[string]Value{}}
 		p.image = ArrVar("image0")
 		in.path = p
+		farFacts = nil
 		in.runPath(fn)
 		in.stats.Paths++
 		in.stats.Steps += int64(p.steps)
